@@ -212,6 +212,7 @@ def run(rep, tier, seed, model_ok=True, effort=1):
     # derived search patterns: a file that carries the PEP 440 form of the version under {pep440_version} / {pep440_pycalver},
     # for every version pattern the legacy engine maps ({pycalver}, {semver}, the four {year}[{month}]{build}{release} forms)
     loader_stream(rep, impl)
+    same_month_stream(rep, impl)
     derived_stream(rep, impl, r, (4 if tier == "quick" else 40) * effort)
     # chains for {pycalver}
     for start, steps in (("v202001.0999", 60), ("v201712.0001-beta", 40), ("v209912.9997", 8)):
@@ -279,6 +280,30 @@ def loader_stream(rep, impl):
                 rep.violation("update fails on a legacy project with a glob entry%s" % (" and an extra entry for one of its files" if round_ == 1 else " (second project in the same process)"), input=inp, **{"class": "v1-loader"})
             elif got_b != '__version__ = "%s"\n# %s' % (new, hist):
                 rep.violation("a file of a legacy project was rewritten with a pattern that is not configured for it", input=inp, **{"class": "v1-loader"})
+
+
+def same_month_stream(rep, impl):
+    """a legacy project with a file pattern that shows calendar parts only (a badge): several updates within one month -- the pattern's text does not
+    change, it is found all the same, every update succeeds and moves the version on"""
+    from . import project
+    for vp, cur, badge, text in (("{pycalver}", "v202404.1001-beta", "CalVer-{year}{month}-blue", "CalVer-202404-blue"), ("{year}.{build_no}", "2024.1001", "(c) {year} demo", "(c) 2024 demo")):
+        prj = project.TempProject(vp, cur, files={"README.md": [badge, "release {version}"]}, contents={"README.md": "%s\nrelease %s\n" % (text, cur)})
+        with prj:
+            seen = [cur]
+            for step in range(3):
+                code, out, logs, exc = prj.run(impl, ["update", "--no-fetch", "--date", "2024-05-10"])
+                new = next((l.split("New Version: ", 1)[1].strip() for l in logs if "New Version: " in l), None)
+                got = open(prj.path("README.md")).read()
+                rep.case(("same-month", vp, step), nontrivial=code == 0)
+                rep.count("same-month-updates")
+                inp = dict(version_pattern=vp, start=cur, file_patterns=[badge, "release {version}"], step=step + 1, args=["update", "--no-fetch", "--date", "2024-05-10"], exit=code, versions=seen, logs=logs[-3:], file=got)
+                if code != 0 or new is None:
+                    rep.violation("update %d of a legacy project fails although every file pattern occurs (one of them shows calendar parts only and does not change)" % (step + 1), input=inp, **{"class": "v1-unchanged-pattern"})
+                    break
+                if ("release %s\n" % new) not in got:
+                    rep.violation("the file does not carry the announced version after update %d" % (step + 1), input=inp, **{"class": "v1-unchanged-pattern"})
+                    break
+                seen.append(new)
 
 
 def derived_stream(rep, impl, r, rounds):
